@@ -114,6 +114,19 @@ def prepare(ck, prop, spec, scratch, tier):
         ck.log(outp[-8000:])
         raise ck.Internal("harness build failed for " + prop)
     spec["bin"] = out
+    spec["extra_bins"] = {}
+    for ex in spec.get("extra_engines", []):
+        ex_extra = dict(extra)
+        ex_extra.pop(os.path.join(ck.REPO, ZZ, spec["engine"], "imports_gen.go"), None)
+        if spec.get("gen"):
+            ex_extra[os.path.join(ck.REPO, ZZ, ex["engine"], "imports_gen.go")] = write_imports(scratch, ex["engine"], CHECKED_IN + pkgs, man)
+        eov = ck.build_overlay(scratch, ex["needs"], ex_extra)
+        eout = scratch.path("bin-" + ex["engine"])
+        rc, outp = ck.go_build(scratch, eov, ZZ + "/" + ex["engine"], eout)
+        if rc != 0:
+            ck.log(outp[-6000:])
+            raise ck.Internal("harness build failed for %s (%s)" % (prop, ex["engine"]))
+        spec["extra_bins"][ex["engine"]] = eout
     if spec.get("race_twin"):
         rout = scratch.path("bin-" + spec["engine"] + "-race")
         rc, outp = ck.go_build(scratch, ov, ZZ + "/" + spec["engine"], rout, race=True)
